@@ -41,11 +41,8 @@ var (
 		Pid:     0,
 	}
 
-	dropCapData = unix.CapUserData{
-		Effective:   0,
-		Permitted:   0,
-		Inheritable: 0,
-	}
+	// capability version 3 describes 64 bits per set: the kernel reads two data structures
+	dropCapData = [2]unix.CapUserData{}
 
 	// 1ms
 	etxtbsyRetryInterval = unix.Timespec{
